@@ -134,6 +134,8 @@ func (e *env) readScenario(root types.Hash256, off, n uint64) *scenario {
 		}
 		if failAt >= 0 && uint64(failAt) < n {
 			c.Oracle("read-success-although-writer-failed", "RPCReadSector(offset=%d, length=%d) reported success although the caller's writer failed after %d bytes: only %d of the %d verified bytes were delivered and the writer's error was dropped", off, n, failAt, len(rr.data), n)
+		} else if uint64(len(rr.data)) < n {
+			c.Oracle("read-success-with-missing-bytes", "RPCReadSector(offset=%d, length=%d) reported success but only %d of the %d bytes of the range reached the caller's writer", off, n, len(rr.data), n)
 		} else if uint64(len(rr.data)) != n {
 			c.Oracle("read-delivers-outside-range", "RPCReadSector(offset=%d, length=%d) reported success and wrote %d bytes to the caller (requested %d): bytes outside the requested range were delivered", off, n, len(rr.data), n)
 		} else if !bytes.Equal(rr.data, sector[off:off+n]) {
@@ -170,6 +172,21 @@ func (e *env) readScenario(root types.Hash256, off, n uint64) *scenario {
 	sc.muts = append(sc.muts, u64Muts(1, "DataLength", func(out []rhpc.Msg) *uint64 { return &resp(out).DataLength })...)
 	sc.muts = append(sc.muts, msgMuts(1, sc.steps)...)
 	sc.muts = append(sc.muts, rawMuts(2, "data", altData)...)
+	// the host announces the full length, streams a leaf-aligned prefix and closes: at the first
+	// leaf, in the middle, one leaf before the end and — for data with a zero tail — where the
+	// non-zero part ends and inside the zeros
+	cuts := []uint64{0, 64, (n / 2) &^ 63, n - 64}
+	if root == e.zeroTail && off < zeroTailPrefix {
+		cuts = append(cuts, zeroTailPrefix-off, zeroTailPrefix-off+64, zeroTailPrefix-off+4096)
+	}
+	seenCut := map[uint64]bool{}
+	for _, k := range cuts {
+		if k >= n || seenCut[k] {
+			continue
+		}
+		seenCut[k] = true
+		sc.muts = append(sc.muts, mutation{2, "data", fmt.Sprintf("stream-cut-at-%d-of-%d", k, n), func(out []rhpc.Msg) { out[2].Raw = out[2].Raw[:min(k, uint64(len(out[2].Raw)))] }})
+	}
 	// the host is honest, the caller's writer is not: it fails at the first byte, in the middle,
 	// on the last byte, at and around the 4 KiB block boundaries a buffering layer would use
 	seen := map[int]bool{}
